@@ -2,6 +2,7 @@
 """C20 RDKit bridge -- code books, sign conventions, attribute coverage (decided from the source; RDKit is not executed)."""
 from ..r_rdkit import rule_bond_books, rule_sign_conventions, rule_attribute_coverage
 from ..r_stereo import rule_tetrahedron_table, rule_alkene_table, rule_ladders
+from ..r_hygiene import rule_hygiene as _rule_hygiene
 
 LEVEL = 'other'
 
@@ -14,3 +15,4 @@ def run(ck, repo):
     rule_tetrahedron_table(ck, repo)
     t = rule_alkene_table(ck, repo)
     rule_ladders(ck, repo, t)
+    _rule_hygiene(ck, repo, 'C20.H-dataflow-hygiene', 'C20')
